@@ -54,6 +54,12 @@ macro_rules! invalid_argument_type {
   }};
 }
 
+/// Returns `true` when the number is neither an infinity nor a NaN.
+pub fn is_finite(number: &FeelNumber) -> bool {
+  // only a finite number subtracted from itself gives zero, for an infinity and a NaN the difference is a NaN
+  *number - *number == FeelNumber::zero()
+}
+
 /// Returns the absolute value of the argument.
 pub fn abs(value: &Value) -> Value {
   if let Value::Number(v) = value {
@@ -361,7 +367,11 @@ pub fn even(number_value: &Value) -> Value {
 /// Returns the Euler’s number e raised to the power of **value** given as a parameter.
 pub fn exp(value: &Value) -> Value {
   if let Value::Number(num) = value {
-    return Value::Number(num.exp());
+    let result = num.exp();
+    if is_finite(&result) {
+      return Value::Number(result);
+    }
+    return value_null!("[core::exp] the result is out of range");
   }
   value_null!("exp")
 }
